@@ -17,7 +17,7 @@ RULE = ('names 0..6 components of any type (incl. an existing ParametersSha256 c
         'packet value and the name length on 252/253/254/65535/65536, 70000; signers: none, digest, HMAC, RSA-2048, '
         'ECDSA P-256/384/521 (variable DER length), Ed25519, null, and a synthetic signer sweeping 0<=actual<=reserved<=300. '
         'The name is handed over as the caller\'s own list object (components as bytes, some as URI strings) and must be unchanged '
-        'after the call; one list object is used for an Interest with parameters, then a Data, then a plain Interest; one MetaInfo / InterestParam OBJECT is used for 2-4 packets with its fields edited between them. '
+        'after the call; one list object is used for an Interest with parameters, then a Data, then a plain Interest; names and forwarding hints also given as tuple / one-shot iterator / generator; one MetaInfo / InterestParam OBJECT is used for 2-4 packets with its fields edited between them. '
         'Signer size contract: reserved sizes of real signer objects (ECDSA on P-192/224/256/384/521, Ed25519, HMAC, digest, null) '
         'against the translated arithmetic; real signatures written into a buffer of exactly the reserved size, r and s read back '
         'from the DER bytes and the DER length model compared with the real length, extreme r/s on every sign-bit boundary. '
@@ -29,6 +29,17 @@ ASSUMPTIONS = ['SHA-256 and the signature primitives are external (hashlib / pyc
 def shipped(label):
     """labels of the signers the library ships (and 'none'); the synthetic signer may break the size contract on purpose"""
     return not label.startswith('synthetic')
+
+
+def in_form(name, form):
+    """the same name in another representation a NonStrictName may have: tuple, one-shot iterator, generator"""
+    if form == 'tuple':
+        return tuple(name)
+    if form == 'iter':
+        return iter(list(name))
+    if form == 'gen':
+        return (c for c in list(name))
+    return name
 
 
 def as_components(name):
@@ -43,7 +54,7 @@ def conv_interest_result(r):
             None if app is None else bytes(app))
 
 
-def one_interest(ctx, M, name, ip, app, signer, label, ip_obj=None):
+def one_interest(ctx, M, name, ip, app, signer, label, ip_obj=None, name_as=None):
     from ndn.encoding import make_interest, parse_interest, InterestParam
     rec = P.Rec(signer) if signer is not None else None
     case = {'kind': 'interest', 'signer': label, 'name': list(name), 'params': {k: v for k, v in ip.items() if k != 'forwarding_hint'},
@@ -54,7 +65,8 @@ def one_interest(ctx, M, name, ip, app, signer, label, ip_obj=None):
         if ip_obj is not None:       # a caller-owned InterestParam object used before: its fields are set to ip now
             for k, v in ip.items():
                 setattr(ip_obj, k, v)
-        wire, final = make_interest(name, ip_obj if ip_obj is not None else InterestParam(**ip), app, rec, need_final_name=True)
+        ipo = ip_obj if ip_obj is not None else InterestParam(**{**ip, 'forwarding_hint': [in_form(h, name_as) for h in ip['forwarding_hint']]})
+        wire, final = make_interest(in_form(name, name_as), ipo, app, rec, need_final_name=True)
         wire = bytes(wire)
         r = 'ok'
     except Exception as e:   # noqa
@@ -119,7 +131,7 @@ def one_interest(ctx, M, name, ip, app, signer, label, ip_obj=None):
     return wire, rec
 
 
-def one_data(ctx, M, name, meta_args, content, signer, label, meta_obj=None):
+def one_data(ctx, M, name, meta_args, content, signer, label, meta_obj=None, name_as=None):
     from ndn.encoding import make_data, parse_data, MetaInfo
     from ndn.encoding import ndn_format_0_3 as F
     rec = P.Rec(signer) if signer is not None else None
@@ -135,7 +147,7 @@ def one_data(ctx, M, name, meta_args, content, signer, label, meta_obj=None):
     case = {'kind': 'data', 'signer': label, 'name': list(name), 'meta': meta_args, 'content_len': None if content is None else len(content)}
     given_name = list(name)
     try:
-        wire = bytes(make_data(name, meta, content, rec))
+        wire = bytes(make_data(in_form(name, name_as), meta, content, rec))
         r = 'ok'
     except Exception as e:   # noqa
         r = type(e).__name__
@@ -293,6 +305,16 @@ def run(ctx):
                 one_interest(ctx, M, shared, ipp, None, None, 'none.shared-name')
             if shared != snapshot:
                 shared = snapshot          # reported by the call above; go on with the name the caller meant
+    # 3b'. the name (and the forwarding hints) given as a tuple / one-shot iterator / generator: the same packet as for the list
+    for i in range(ctx.n(30, 400)):
+        label, sg, _ = rng.choice(signers)
+        form = ['tuple', 'iter', 'gen'][i % 3]
+        nm = G.name_of_tv([tv for tv in G.rand_name_tv(rng, 5) if tv[0] != 2])
+        ipp = P.rand_interest_args(rng)[1]
+        if not ipp['forwarding_hint']:
+            ipp['forwarding_hint'] = [G.name_of_tv(G.rand_name_tv(rng, 3)) for _ in range(2)]
+        one_data(ctx, M, nm, rng.choice([None, {}]), rng.choice([None, b'x']), sg, label + '.name-' + form, name_as=form)
+        one_interest(ctx, M, nm, ipp, rng.choice([None, b'p']), sg, label + '.name-' + form, name_as=form)
     # 3c. ONE MetaInfo / InterestParam object used for several packets, its fields edited between the packets (the usual way to
     #     segment an object: final_block_id set on the last segment only): every packet is what a fresh object would give
     from ndn.encoding import MetaInfo as _MI, InterestParam as _IP
